@@ -54,9 +54,10 @@ PROPS = {
         rule=("every term up to 6 (quick) / 7 (thorough) constructors over indices 0..3 plus random terms; all pairs of "
               "terms up to 4/5 constructors for is_isomorphic_to; every case is distinct and non-trivial (a predicate "
               "is evaluated and compared with its definition)"),
-        trusted_base=[KERNEL, NOAX, TIE_B + "; modelled: has_free_variables(+helper), is_supercombinator (work-list "
-                      "loop), max_depth, is_isomorphic_to", ORACLE, OUTSIDE],
-        assumptions=["the Gallina mirror of the predicates is faithful (differential testing only)",
+        trusted_base=[KERNEL, NOAX, "tie: the four predicates (+helper) are REGENERATED from src/term.rs on every run by the "
+                      "translator lib/trans_term.py (Gen/TermSrc.v) and proved equal to the model functions (Proofs/TermSrcTie.v); "
+                      "outside the translated idiom the last good copy is used; in both cases: " + TIE_B, ORACLE, OUTSIDE],
+        assumptions=["the translator lib/trans_term.py renders the Rust of the predicates faithfully (its output is proved equal to the hand model, which is differentially tested against the crate)",
                      "is_supercombinator is not constrained on terms containing UD (definition silent)", OUTSIDE],
         explanation=("Theorems: each model predicate equals its independent definition for all terms; the "
                      "supercombinator loop terminates within its fuel and decides the inductive definition.")),
@@ -64,8 +65,9 @@ PROPS = {
         suites=["termops"], oracle_re=r"oracle:C19:",
         rule=("every term up to 6/7 constructors over indices 0..3 plus random terms, all 15 accessors, 6 writes "
               "through _mut forms, app!/abs! with 2-4 arguments / n<=5; distinct = distinct term"),
-        trusted_base=[KERNEL, NOAX, TIE_B + "; modelled: 15 accessors, setters through _mut, abs, app, abs!, app!",
-                      ORACLE, OUTSIDE],
+        trusted_base=[KERNEL, NOAX, "tie: the 15 accessors are REGENERATED from src/term.rs on every run by lib/trans_term.py "
+                      "(Gen/TermSrc.v) and proved equal to the model functions (Proofs/TermSrcTie.v); setters through _mut, abs, app, "
+                      "abs!, app! are hand-written mirrors; in both cases: " + TIE_B, ORACLE, OUTSIDE],
         assumptions=["consuming, _ref and _mut reads are one function in the pure model; their agreement on the "
                      "implementation is established by the correspondence run", OUTSIDE],
         explanation="Theorems: accessor/constructor laws, precise errors, lens laws for the _mut forms, macros."),
